@@ -70,6 +70,20 @@ def h_step(e):
     e.claim_eq("instruction_count+1", pm.instruction_count, 1)
     e.claim_eq("branch_count", pm.branch_count, 1 if branched else 0)
     e.claim("has_started", sim.has_started is True)
+    # the same instruction through the half-cycle API costs and counts the same
+    twin, _ = mk_toy(e, inp)
+    twin.first_cycle_step()
+    twin.second_cycle_step()
+    tpm = twin.state.performance_metrics
+    e.claim_eq("half-cycle-api:cycles+2", tpm.cycles, 2)
+    e.claim_eq("half-cycle-api:instruction_count+1", tpm.instruction_count, 1)
+    e.claim_eq("half-cycle-api:accu", val(twin.state.accu), accu)
+    # once the program has stopped, further step calls neither cost nor count
+    if halted:
+        r2 = sim.step()
+        e.claim("step-after-halt-returns-false", r2 is False)
+        e.claim_eq("step-after-halt:cycles", pm.cycles, 2)
+        e.claim_eq("step-after-halt:instruction_count", pm.instruction_count, 1)
 
 
 # ---------------------------------------------------------------------------------------------------
